@@ -1,3 +1,5 @@
+pub mod prefilter;
+pub mod repr;
 pub mod semantic;
 
 use crate::runner::PropDef;
@@ -10,6 +12,10 @@ pub fn all() -> Vec<&'static PropDef> {
         &semantic::C09,
         &semantic::C11,
         &semantic::C14,
+        &repr::C04,
+        &repr::C16,
+        &prefilter::C05,
+        &prefilter::C10,
     ]
 }
 
